@@ -22,7 +22,7 @@ FLAGS_c15 = -fsanitize=address,undefined -fno-sanitize-recover=undefined -D_GLIB
 FLAGS_c17 = -fsanitize=address,undefined -fno-sanitize-recover=undefined -D_GLIBCXX_ASSERTIONS
 
 # checks built as three parts
-PARTED  = c02 c05 c10
+PARTED  = c02 c05 c06 c10
 EXISTING = $(foreach c,$(filter-out $(PARTED),$(CHECKS)),$(if $(wildcard checks/$(c).cpp),$(B)/$(c))) \
            $(foreach c,$(PARTED),$(if $(wildcard checks/$(c).cpp),$(B)/$(c).p0 $(B)/$(c).p1 $(B)/$(c).p2))
 
